@@ -796,3 +796,35 @@ def scan_drop_shape(repo):
 
 STATIC["drop_flushes_before_next_restore"] = dict(props=["C17"], fn=scan_drop_shape, obligation="C17.unwind.flushed",
                                                   replay_static=lambda verif: _replay_bin("c17_unwind_flush", [], verif), soft=True)
+
+
+# wave 10 (seed C16-j): a 32-bit ARM back end whose writes depend on what it READ at the entry (a "re-fake fast
+# path" that rewrites only the literal). c16_again proves the contract after an arbitrary earlier installation for
+# arbitrary entry content, but assumes the entry is not at 2 mod 4 and Kani cannot follow pointer arithmetic on the
+# integer-cast entry address (undecided). The scan checks the frame assumption "the bytes read at the entry are only
+# saved, never branched on"; when it fails, the native re-fake history on the T1-extracted back end (arena below
+# 4 GiB, independent T32 / A32 decoder) decides.
+def scan_arm_content_independent(repo):
+    t = open(os.path.join(repo, "src", "injector_core", "patch_arm.rs")).read()
+    code = "\n".join(l for l in t.split("\n") if not l.strip().startswith("//"))
+    names = re.findall(r"let\s+(?:mut\s+)?(\w+)\s*=\s*(?:unsafe\s*\{\s*)?read_bytes\(", code)
+    if not names:
+        return None, "no `let x = read_bytes(..)` binding found in patch_arm.rs"
+    dep = []
+    for n in set(names):
+        uses = len(re.findall(r"\b%s\b" % re.escape(n), code))
+        binds = names.count(n)
+        if uses > 2 * binds:
+            dep.append("%s used %d times" % (n, uses))
+    if dep:
+        return False, "the 32-bit ARM back end looks at the bytes it read at the entry (%s): what it writes may depend on earlier installations" % "; ".join(dep)
+    return True, "the bytes read at the entry are bound once and only handed to the guard: what is written depends on (target, fake) alone"
+
+
+def _replay_arm_native(verif):
+    import native_ext
+    return native_ext.run(verif, os.environ.get("VERIF_WORK_SUFFIX", ""))
+
+
+STATIC["arm_patch_content_independent"] = dict(props=["C16"], fn=scan_arm_content_independent, obligation="C16.loads-fake.history",
+                                               replay_static=_replay_arm_native, soft=True)
